@@ -160,6 +160,13 @@ class ExprCanon(ast.NodeTransformer):
             return _loc(ast.BoolOp(op=ast.And(), values=parts), node)
         op = node.ops[0]
         l, r = node.left, node.comparators[0]
+        # two literal constants (None / bool / str): `None is None`, `'a' == 'b'`
+        if isinstance(l, ast.Constant) and isinstance(r, ast.Constant) and all(x.value is None or isinstance(x.value, (bool, str)) for x in (l, r)):
+            same = (l.value is r.value) if (l.value is None or r.value is None or isinstance(l.value, bool) or isinstance(r.value, bool)) else (l.value == r.value)
+            if isinstance(op, (ast.Is, ast.Eq)) and (isinstance(op, ast.Is) or type(l.value) is type(r.value) or l.value is None or r.value is None):
+                return _loc(ast.Constant(value=bool(same)), node)
+            if isinstance(op, (ast.IsNot, ast.NotEq)) and (isinstance(op, ast.IsNot) or type(l.value) is type(r.value) or l.value is None or r.value is None):
+                return _loc(ast.Constant(value=not same), node)
         if type(op) in _FLIP and _is_const(l) and not _is_const(r):
             node = _loc(ast.Compare(left=r, ops=[_FLIP[type(op)]()], comparators=[l]), node)
             op = node.ops[0]
@@ -941,11 +948,13 @@ def canon_block(stmts):
         stmts = [s for s in stmts if not isinstance(s, ast.Pass)] or stmts[:1]
     stmts = _strip_annotations(stmts)
     stmts = _sink_flag(stmts)
+    stmts = _thread_known_arm(stmts)
     stmts = _expand_walrus(stmts)
     stmts = _expand_ifexp(stmts)
     stmts = _split_tuple_assigns(stmts)
     stmts = _fold_dict_stores(stmts)
     stmts = _fold_list_appends(stmts)
+    stmts = _table_dispatch_var(stmts)
     stmts = [_merge_arms(_table_dispatch(s)) if isinstance(s, ast.If) else s for s in stmts]
     stmts = _unroll_literal_loops(stmts)
     if any(isinstance(x, ast.If) and isinstance(x.test, ast.Constant) for x in stmts):
@@ -1102,6 +1111,34 @@ def _bool_if_deep(s):
     return _bool_if(s)
 
 
+def _table_dispatch_var(stmts):
+    """`b = T.get(V)` directly followed by `if b is None: A else: B` where B only calls b and A does not mention it
+    (T a literal table of names):  `if V in T: B[b(..) := T[V](..)] else: A`"""
+    out = list(stmts)
+    i = 0
+    while i + 1 < len(out):
+        a, s = out[i], out[i + 1]
+        if isinstance(a, ast.Assign) and len(a.targets) == 1 and isinstance(a.targets[0], ast.Name) and isinstance(s, ast.If):
+            bname = a.targets[0].id
+            g = a.value
+            t = s.test
+            if isinstance(g, ast.Call) and isinstance(g.func, ast.Attribute) and g.func.attr == "get" and isinstance(g.func.value, ast.Dict) and len(g.args) == 1 and not g.keywords and isinstance(g.args[0], ast.Name) and g.func.value.keys and all(isinstance(k, ast.Constant) and isinstance(k.value, str) for k in g.func.value.keys) and all(isinstance(v, (ast.Name, ast.Attribute)) or _is_partial(v) for v in g.func.value.values) and isinstance(t, ast.Compare) and len(t.ops) == 1 and isinstance(t.ops[0], (ast.Is, ast.IsNot)) and isinstance(t.left, ast.Name) and t.left.id == bname and isinstance(t.comparators[0], ast.Constant) and t.comparators[0].value is None:
+                none_arm, call_arm = (s.body, s.orelse) if isinstance(t.ops[0], ast.Is) else (s.orelse, s.body)
+                loads = [n for st in call_arm for n in ast.walk(st) if isinstance(n, ast.Name) and n.id == bname]
+                callf = {id(c.func) for st in call_arm for c in ast.walk(st) if isinstance(c, ast.Call)}
+                if call_arm and loads and all(isinstance(n.ctx, ast.Load) and id(n) in callf for n in loads) and not any(_mentions(x, bname) for x in none_arm) and not any(_mentions(x, bname) for x in out[i + 2:]) and not any(isinstance(n, ast.Name) and n.id == g.args[0].id and isinstance(n.ctx, (ast.Store, ast.Del)) for st in call_arm for n in ast.walk(st)):
+                    d = g.func.value
+                    for st in call_arm:
+                        for c in ast.walk(st):
+                            if isinstance(c, ast.Call) and isinstance(c.func, ast.Name) and c.func.id == bname:
+                                c.func = _loc(ast.Subscript(value=copy.deepcopy(d), slice=copy.deepcopy(g.args[0]), ctx=ast.Load()), c.func)
+                    new = _loc(ast.If(test=_loc(ast.Compare(left=g.args[0], ops=[ast.In()], comparators=[d]), t), body=call_arm, orelse=none_arm), s)
+                    out[i:i + 2] = [ast.fix_missing_locations(new)]
+                    continue
+        i += 1
+    return out
+
+
 def _table_dispatch(s):
     """`if {k: f, ..}.get(V) is not None: {k: f, ..}.get(V)(args)` -> `if V in {k: f, ..}: {k: f, ..}[V](args)`
     (a literal table whose values are names: a name in a dispatch table is taken to be a function, never None)"""
@@ -1119,7 +1156,7 @@ def _table_dispatch(s):
     if not (isinstance(g, ast.Call) and isinstance(g.func, ast.Attribute) and g.func.attr == "get" and isinstance(g.func.value, ast.Dict) and len(g.args) == 1 and not g.keywords and isinstance(g.args[0], ast.Name)):
         return s
     d = g.func.value
-    if not d.keys or not all(isinstance(k, ast.Constant) and isinstance(k.value, str) for k in d.keys) or not all(isinstance(v, (ast.Name, ast.Attribute)) for v in d.values):
+    if not d.keys or not all(isinstance(k, ast.Constant) and isinstance(k.value, str) for k in d.keys) or not all(isinstance(v, (ast.Name, ast.Attribute)) or _is_partial(v) for v in d.values):
         return s
     key = _dump(g)
     calls = [n for st in s.body for n in ast.walk(st) if isinstance(n, ast.Call) and _dump(n.func) == key]
@@ -1581,6 +1618,50 @@ def _sink_flag(stmts):
                     new = _loc(ast.If(test=s.test, body=s.body[:-1] + [spec(b.value)], orelse=s.orelse[:-1] + [spec(o.value)]), s)
                     out[i:i + 2] = [canon_stmt(new)]
                     continue
+        i += 1
+    return out
+
+
+def _thread_known_arm(stmts):
+    """`if c: ..; t = E else: ..; t = K` (K a literal None / True / False) followed by an `if` that tests t, t not being
+    read anywhere else afterwards: the second `if` is moved into the arms, in the arm of the constant with K in place
+    of t (its test is then decided)."""
+    out = list(stmts)
+    i = 0
+    while i + 1 < len(out):
+        s, nxt = out[i], out[i + 1]
+        if isinstance(s, ast.If) and s.body and s.orelse and isinstance(nxt, ast.If):
+            b, o = s.body[-1], s.orelse[-1]
+            if isinstance(b, ast.Assign) and isinstance(o, ast.Assign) and len(b.targets) == 1 and len(o.targets) == 1 and isinstance(b.targets[0], ast.Name) and isinstance(o.targets[0], ast.Name) and b.targets[0].id == o.targets[0].id and (_is_const(b.value) != _is_const(o.value)):
+                t = b.targets[0].id
+                const_in_body = _is_const(b.value)
+                K = b.value if const_in_body else o.value
+                if isinstance(K, ast.Constant) and (K.value is None or isinstance(K.value, bool)) and _mentions(nxt.test, t):
+                    later = out[i + 2:]
+                    elsewhere = any(_mentions(x, t) for x in later) or any(_mentions(x, t) for x in s.body[:-1] + s.orelse[:-1]) or _mentions(s.test, t)
+                    stores_in_next = any(isinstance(x, ast.Name) and x.id == t and isinstance(x.ctx, (ast.Store, ast.Del)) for x in ast.walk(nxt))
+                    # what gets copied must be small or the decided arm only: the constant copy is folded
+                    if not elsewhere and not stores_in_next:
+                        class R(ast.NodeTransformer):
+                            def visit_Name(self, n):
+                                if n.id == t and isinstance(n.ctx, ast.Load):
+                                    return _loc(copy.deepcopy(K), n)
+                                return n
+
+                        const_copy = ast.fix_missing_locations(R().visit(copy.deepcopy(nxt)))
+                        const_copy = _Tests().visit(ExprCanon().visit(const_copy))
+                        if isinstance(const_copy, ast.If) and isinstance(const_copy.test, ast.Constant):
+                            decided = const_copy.body if const_copy.test.value else const_copy.orelse
+                            size = sum(1 for x in decided for _ in ast.walk(x))
+                            if size <= 60:
+                                if const_in_body:
+                                    new = _loc(ast.If(test=s.test, body=s.body[:-1] + list(decided) or [_loc(ast.Pass(), s)], orelse=s.orelse + [nxt]), s)
+                                else:
+                                    new = _loc(ast.If(test=s.test, body=s.body + [nxt], orelse=(s.orelse[:-1] + list(decided)) or [_loc(ast.Pass(), s)]), s)
+                                if not new.body:
+                                    new.body = [_loc(ast.Pass(), s)]
+                                out[i:i + 2] = [canon_stmt(ast.fix_missing_locations(new))]
+                                continue
         i += 1
     return out
 
